@@ -139,6 +139,9 @@ func tags(c *Case, obs *RunObs) ([]string, bool) {
 	if c.NoID {
 		t = append(t, "no-id")
 	}
+	if c.Twice {
+		t = append(t, "second-run")
+	}
 	if l := c.Lists; l != nil {
 		t = append(t, fmt.Sprintf("lists:shared-by-%d", len(l.Graphs)))
 		foreign, dup := false, false
